@@ -91,10 +91,16 @@ def shift_register_form(rep, c, env, inp):
                     direct = False
                     for dd in (inp or []):
                         v_ = c.norm(dd.value)
+                        wants_ = [ir.split_neg(c.norm(ir.parse(t_))) for t_ in ("self.input_stages >= 2", "self.input_stages > 1")]
                         for x in ir.walk(v_):
-                            if x[0] == 'phi' and c.norm(x[1]) in (c.norm(ir.parse("self.input_stages > 1")), c.norm(ir.parse("self.input_stages >= 2"))) \
-                                    and c.norm(x[3]) == c.parse("pin.i", env):
-                                direct = True
+                            if x[0] != 'phi':
+                                continue
+                            b_, p_ = ir.split_neg(c.norm(x[1]))
+                            for want_b, want_p in wants_:
+                                if b_ == want_b:
+                                    low_arm = x[3] if p_ == want_p else x[2]        # the arm taken when input_stages < 2
+                                    if c.norm(low_arm) == c.parse("pin.i", env):
+                                        direct = True
                     if direct:
                         rep.bad("C16.1", site, "chain length == input_stages",
                                 "the synchroniser cell is used only for input_stages >= 2 and every other depth reads the pin directly: with "
@@ -430,6 +436,16 @@ def register_map(rep, idx, ctor, roles):
     order = [name for _, name, _, _ in roles]
     rep.check(order == ["Mode", "Input", "Output", "SetClr"], "C16.5", site, "register order Mode, Input, Output, SetClr",
               f"registers are added in the order {order}")
+    # the builder places the registers (each padded to a power of two of bus words, naturally aligned): an offset computed in the
+    # constructor has to reproduce that for every pin count and data width, which the rule does not re-derive
+    explicit = [(name, dict(val[3]).get('offset')) for _, name, attr, val in roles if val[0] == 'call' and 'offset' in dict(val[3])]
+    if explicit:
+        rep.unk("C16.5", site, "the registers are placed by the builder (no explicit offsets)",
+                f"{[n for n, _ in explicit]} are added at explicit offsets ({ir.show(explicit[0][1])[:70]}); whether these agree with the "
+                "builder's padding and natural alignment for every pin_count / data_width (registers of 3, 5, 6, 7 bus words are "
+                "padded to 4 / 8 addresses) is not decided")
+    else:
+        rep.ok("C16.5", site, "the registers are placed by the builder (no explicit offsets)", "implicit placement", nontrivial=False)
     for _, name, attr, val in roles:
         if len(val[2]) < 2:
             continue
